@@ -506,6 +506,34 @@ def p9(rep):
     rep.floor("line-counter increments in include.c", n, 2)
 
 
+def p11(rep):
+    """The global line table maps a run of global line numbers to one file.  sposNew starts a new run when the file of the line
+    it is given is not the file of the last run -- that is the only way the return from an #include (or a #line naming another
+    file) is noticed, and the file name must be compared for it: line numbers that run on prove nothing (the included file's
+    last line may have the number of the directive's line).  On the CFG of sposNew every path from the entry to the creation
+    of the position (sposSet) passes the comparison of the file names (fnameEqual) or starts a new run (sposGrowGloLineTbl)."""
+    f = common.extract("srcpos.c", trees=["sposNew"], cfg=["sposNew"])
+    fn = f.func("sposNew")
+    cfg = common.CFG(fn)
+    is_set = lambda e: e["k"] == "CallExpr" and e.get("callee") == "sposSet" or (e.get("mac") == "sposSet" and e["k"] in ("BinaryOperator", "ParenExpr"))
+    decided = lambda e: e["k"] == "CallExpr" and e.get("callee") in ("fnameEqual", "sposGrowGloLineTbl")
+    rets = [r for _, _, r in cfg.return_blocks() if r.get("c") and r["c"][0] is not None and any(is_set(y) for y in walk(r["c"][0]))]
+    if not rets or not cfg.events(decided):
+        raise AnalysisBroken("sposNew: the return of sposSet(..) or the file-name comparison was not found")
+    n = 0
+    for r in rets:
+        n += 1
+        p = cfg.path_avoiding(cfg.entry, lambda e, r=r: e is r, decided)
+        if p is None:
+            rep.ok("P11", "new-run-decided-by-file-name@%d" % n)
+        else:
+            rep.violation("P11", "new-run-decided-by-file-name", "srcpos.c:%d (sposNew)" % r["l"],
+                          "a position is created on a path that neither compares the file name of the line with that of the last "
+                          "run nor starts a new run: when an #include returns to a line whose numbers happen to run on from the "
+                          "included file's last line, the includer's lines stay attributed to the included file -- right line "
+                          "number, wrong file", detail={"cfg_path": p[:10]})
+
+
 def p10(rep):
     """sposNew starts a new line-table segment -- which is what makes a message name the file it is in -- when the file name of
     the next line differs from the previous entry's (fnameEqual -> osFnameDirEqual for the directory parts).  osFnameDirEqual
@@ -585,5 +613,6 @@ def run(tier, only=None):
     p6(rep)
     p9(rep)
     p10(rep)
+    p11(rep)
     rep.analysed_count("translation units", 3)
     return rep
